@@ -3980,4 +3980,103 @@ theorem json_roundtrip_rep {cfg : Sites} {sch : Schema} {black : Bool} {d : Ty} 
     exact hm'
 
 
+
+theorem strEnd_ge : ∀ (l : Bytes) (o : Bool) (i : Nat), i ≤ strEnd l o i
+  | [], o, i => by simp [strEnd]
+  | c :: r, o, i => by
+    unfold strEnd
+    split
+    · split
+      · omega
+      · next r' => have := strEnd_ge r' o (i + 2); omega
+    · split
+      · split
+        · omega
+        · have := strEnd_ge r true (i + 1); omega
+      · have := strEnd_ge r o (i + 1); omega
+
+theorem litSpan_length : ∀ (l : Bytes), (litSpan l).1.length + (litSpan l).2.length = l.length
+  | [] => by simp [litSpan]
+  | c :: r => by
+    simp only [litSpan]
+    split
+    · simp
+    · have := litSpan_length r
+      simp only [List.length_cons]
+      omega
+
+/-- with the repaired `lit()` every token read at a non-empty suffix consumes input -/
+theorem progress_of_repaired {cfg : Sites} (h : cfg.litStall = false) (p : Bytes) : Progress cfg p := by
+  intro r _ t r' hn hne
+  cases r with
+  | nil => exact absurd rfl hne
+  | cons c r0 =>
+    rw [next] at hn
+    have one : ∀ {t' : Tok}, (Res.ok (t', r0) : Res (Tok × Bytes)) = .ok (t, r') → r'.length < (c :: r0).length := by
+      intro t' h
+      simp only [Res.ok.injEq, Prod.mk.injEq] at h
+      rw [← h.2]; simp
+    split at hn
+    · exact one hn
+    split at hn
+    · exact one hn
+    split at hn
+    · exact one hn
+    split at hn
+    · exact one hn
+    split at hn
+    · exact one hn
+    split at hn
+    · exact one hn
+    split at hn
+    · exact one hn
+    split at hn
+    · exact one hn
+    split at hn
+    · rename_i hq
+      unfold nextStr at hn
+      simp only at hn
+      split at hn
+      · unfold siteStrSlice siteErrTok at hn
+        split at hn
+        · simp at hn
+        · split at hn <;> simp at hn
+      · rename_i hle
+        split at hn
+        · unfold siteErrTok at hn
+          split at hn <;> simp at hn
+        · simp only [Res.ok.injEq, Prod.mk.injEq] at hn
+          rw [← hn.2]
+          have h1 : 1 ≤ strEnd (c :: r0) false 0 := by
+            unfold strEnd
+            have hc92 : ¬ c = 92 := by omega
+            simp only [hc92, ↓reduceIte, hq, Bool.false_eq_true]
+            exact strEnd_ge r0 true 1
+          simp only [List.length_drop, List.length_cons] at *
+          omega
+    · unfold nextLit at hn
+      have hl := litSpan_length (c :: r0)
+      split at hn
+      rename_i v rest hls
+      rw [hls] at hl
+      split at hn
+      · exact one hn
+      · rename_i hv
+        have hvne : v.length ≥ 1 := by
+          cases v with
+          | nil => simp [h] at hv
+          | cons a l => simp
+        split at hn
+        · rw [Res.bind_eq_ok] at hn
+          obtain ⟨n, _, hn⟩ := hn
+          simp only [Res.ok.injEq, Prod.mk.injEq] at hn
+          rw [← hn.2]
+          simp only at hl
+          omega
+        · simp only [Res.ok.injEq, Prod.mk.injEq] at hn
+          rw [← hn.2]
+          simp only at hl
+          omega
+
+
 end FieldMask
